@@ -23,9 +23,9 @@ ROWS = {
     10: "memory send(), buffer has room", 11: "memory send(), receiver waiting", 12: "memory receive(), buffer has items",
     13: "memory receive(), sender waiting", 14: "to_thread.run_sync()", 15: "TaskHandle.wait() on finished task",
     16: "await TaskHandle of finished task", 17: "Future.wait() on finished future",
-    18: "functools.reduce() with zero callback calls", 30: "Lock.acquire(fast_acquire=True)", 31: "acquire_nowait()",
+    18: "functools.reduce() with zero callback calls", 19: "await Future (finished)", 20: "await Future (failed)", 30: "Lock.acquire(fast_acquire=True)", 31: "acquire_nowait()",
 }
-CHECKED = [1, 2, 3, 4, 5, 6, 7, 8, 10, 11, 12, 13, 14, 15, 16, 17, 18]
+CHECKED = [1, 2, 3, 4, 5, 6, 7, 8, 10, 11, 12, 13, 14, 15, 16, 17, 18, 19, 20]
 
 
 async def run_row(row: int, cancelled: bool):
@@ -138,6 +138,22 @@ async def run_row(row: int, cancelled: bool):
         fut = Future()
         fut.return_value = 4
         op = fut.wait
+    elif row in (19, 20):
+        from anyio import Future
+        fut = Future()
+        if row == 19:
+            fut.return_value = 4
+        else:
+            fut.exception = ValueError("boom")
+
+        async def aw():
+            try:
+                return await fut
+            except anyio.get_cancelled_exc_class():
+                raise
+            except BaseException:        # FutureFailed: the future's own outcome, delivered after the checkpoint
+                return None
+        op = aw
     elif row == 18:
         from anyio.functools import reduce
 
